@@ -73,11 +73,33 @@ def _anchor_files(prop: str) -> set:
     return set()
 
 
-def _benign(prop: str) -> dict:
-    import re
+def _benign_one(args):
+    """apply one patch to a scratch copy and return the (key, status) set of the property there (or an error string)"""
     import subprocess
     from . import report
     from .core import repo_root
+    from .run import Ctx, load_rules
+    prop, path = args
+    tmp = tempfile.mkdtemp(prefix=f"verif-benign-{prop}-")
+    try:
+        shutil.copytree(os.path.join(repo_root(), "rope"), os.path.join(tmp, "rope"), ignore=shutil.ignore_patterns("__pycache__"))
+        p = subprocess.run(["patch", "-p1", "-s", "-i", path], cwd=tmp, capture_output=True, text=True)
+        if p.returncode != 0:
+            return path, None
+        try:
+            res = report.Results(prop)
+            load_rules(prop).check(Ctx("quick", 0, root=tmp), res)
+            return path, {(i.key, i.status) for i in res.instances}
+        except Exception as e:
+            return path, f"{type(e).__name__}: {str(e)[:120]}"
+    finally:
+        shutil.rmtree(tmp, ignore_errors=True)
+
+
+def _benign(prop: str) -> dict:
+    import re
+    from concurrent.futures import ProcessPoolExecutor
+    from . import report
     from .run import Ctx, load_rules
 
     root = os.path.join(report.VERIF, "benign")
@@ -85,41 +107,34 @@ def _benign(prop: str) -> dict:
     if not os.path.isdir(root):
         return out
     anchors = _anchor_files(prop)
-
-    def keys(r):
-        ctx = Ctx("quick", 0, root=r)
-        res = report.Results(prop)
-        load_rules(prop).check(ctx, res)
-        return {(i.key, i.status) for i in res.instances}
-
-    base = None
+    todo = []
     for d in sorted(os.listdir(root)):
         for f in sorted(os.listdir(os.path.join(root, d))):
             if not f.endswith(".diff"):
                 continue
             path = os.path.join(root, d, f)
             touched = set(re.findall(r"^\+\+\+ b/(\S+)", open(path, encoding="utf-8").read(), re.M))
-            if not (d.startswith(prop) or touched & anchors):
+            if d.startswith(prop) or touched & anchors:
+                todo.append((prop, path))
+    if not todo:
+        return out
+    res = report.Results(prop)
+    load_rules(prop).check(Ctx("quick", 0), res)
+    base = {(i.key, i.status) for i in res.instances}
+    workers = max(1, min(8, (os.cpu_count() or 2) // 2, len(todo)))
+    with ProcessPoolExecutor(max_workers=workers) as ex:
+        for path, new in ex.map(_benign_one, todo):
+            name = os.path.join(os.path.basename(os.path.dirname(path)), os.path.basename(path))
+            if new is None:
+                out["skipped"] += 1
                 continue
-            tmp = tempfile.mkdtemp(prefix=f"verif-benign-{prop}-")
-            try:
-                shutil.copytree(os.path.join(repo_root(), "rope"), os.path.join(tmp, "rope"), ignore=shutil.ignore_patterns("__pycache__"))
-                p = subprocess.run(["patch", "-p1", "-s", "-i", path], cwd=tmp, capture_output=True, text=True)
-                if p.returncode != 0:
-                    out["skipped"] += 1
-                    continue
-                out["patches"] += 1
-                if base is None:
-                    base = keys(None)
-                try:
-                    new = keys(tmp)
-                    bad = sorted(k for k, st in new - base if st != report.OK)
-                    if bad:
-                        out["alarms"].append(f"{d}/{f}: {bad[:3]}")
-                except Exception as e:
-                    out["alarms"].append(f"{d}/{f}: {type(e).__name__}: {str(e)[:120]}")
-            finally:
-                shutil.rmtree(tmp, ignore_errors=True)
+            out["patches"] += 1
+            if isinstance(new, str):
+                out["alarms"].append(f"{name}: {new}")
+                continue
+            bad = sorted(k for k, st in new - base if st != report.OK)
+            if bad:
+                out["alarms"].append(f"{name}: {bad[:3]}")
     return out
 
 
